@@ -46,10 +46,11 @@ type SkipCompressedFilter struct{}
 // encodings via https://developer.mozilla.org/en-US/docs/Web/HTTP/Headers/Content-Encoding
 func (n SkipCompressedFilter) ShouldCompress(w http.ResponseWriter) bool {
 	switch w.Header().Get("Content-Encoding") {
-	case "gzip", "compress", "deflate", "br":
-		return false
-	default:
+	case "", "identity":
 		return true
+	default:
+		// any other coding (gzip, compress, deflate, br, zstd, ...) means the response is already encoded
+		return false
 	}
 }
 
